@@ -23,7 +23,8 @@ def cfg : Cfg :=
   { clauses := clausesOf
     procfsClauses := mkClauses Gen.C20.procfsClauses
     win := winCfg
-    broadcastAssigned := Gen.C20.winBroadcastAssigned }
+    broadcastAssigned := Gen.C20.winBroadcastAssigned
+    sunosPid0Named := Gen.C20.sunosPid0AdNamed }
 
 /-- the generated per-platform method list -/
 def methodsOf (p : Platform) : List Method :=
